@@ -1052,7 +1052,9 @@ EbErrorType picture_control_set_ctor(PictureControlSet *object_ptr, EbPtr object
         EB_CALLOC_ALIGNED_ARRAY(object_ptr->tpl_mvs, mem_size);
     }
     object_ptr->hash_table.p_lookup_table = NULL;
-    svt_av1_hash_table_create(&object_ptr->hash_table);
+    return_error = svt_av1_hash_table_create(&object_ptr->hash_table);
+    if (return_error != EB_ErrorNone)
+        return return_error;
     EB_MALLOC_ALIGNED(object_ptr->rst_tmpbuf, RESTORATION_TMPBUF_SIZE);
     return EB_ErrorNone;
 }
@@ -1338,6 +1340,8 @@ EbErrorType picture_parent_control_set_ctor(PictureParentControlSet *object_ptr,
                               object_ptr->av1_cm->rst_info);
 
     return_error = svt_av1_alloc_restoration_buffers(object_ptr->av1_cm);
+    if (return_error != EB_ErrorNone)
+        return return_error;
 
     memset(&object_ptr->av1_cm->rst_frame, 0, sizeof(Yv12BufferConfig));
 
